@@ -83,6 +83,13 @@ def longestMatch : List (List Nat) → List Nat → Option (List Nat)
       | some q => if p.length < q.length then some q else some p
     else longestMatch ps key
 
+/-! ### The specification side of (re-)registration: what "registered under prefix `p`" means after a
+history of `setup()` calls, computed without any table -/
+
+/-- the backend of the LAST `setup(..., prefix=p)` of the history -/
+def lastReg (regs : List (List Nat × Nat)) (p : List Nat) : Option Nat :=
+  regs.foldl (fun acc r => if r.1 = p then some r.2 else acc) none
+
 /-! ### Multi-key commands: grouping per backend -/
 
 /-- `backends.setdefault(backend, []).append(key)` on an insertion-ordered dict -/
